@@ -11,7 +11,9 @@ pub enum Src {
 
 #[derive(Clone, Debug, PartialEq)]
 pub enum BoolDef {
-    Cmp { op: Cmp, a: Src, b: Src },
+    /// fa / fb: path fact (key, generation) the operand was the tracked call result of; ia / ib: operand
+    /// intervals when the comparison was evaluated
+    Cmp { op: Cmp, a: Src, b: Src, fa: Option<(Rc<str>, u64)>, fb: Option<(Rc<str>, u64)>, ia: (i128, i128), ib: (i128, i128) },
     Not(u32, u32),
 }
 
@@ -51,21 +53,21 @@ pub struct State {
     pub rng_count: u32,
     /// path facts: interval of the latest tracked call result per key, refined by the branch conditions
     /// taken since (absent key = nothing known)
-    pub facts: Rc<std::collections::BTreeMap<Rc<str>, (i128, i128)>>,
+    pub facts: Rc<std::collections::BTreeMap<Rc<str>, (i128, i128, u64)>>,
 }
 
 impl State {
     pub fn empty() -> State {
         State { frames: Vec::new(), atoms: Vec::new(), rng_count: 0, facts: Rc::new(Default::default()) }
     }
-    fn join_facts(&self, o: &State) -> Rc<std::collections::BTreeMap<Rc<str>, (i128, i128)>> {
+    fn join_facts(&self, o: &State) -> Rc<std::collections::BTreeMap<Rc<str>, (i128, i128, u64)>> {
         if Rc::ptr_eq(&self.facts, &o.facts) || self.facts == o.facts {
             return self.facts.clone();
         }
         let mut m = std::collections::BTreeMap::new();
         for (k, a) in self.facts.iter() {
             if let Some(b) = o.facts.get(k) {
-                m.insert(k.clone(), (a.0.min(b.0), a.1.max(b.1)));
+                m.insert(k.clone(), (a.0.min(b.0), a.1.max(b.1), if a.2 == b.2 { a.2 } else { 0 }));
             }
         }
         Rc::new(m)
@@ -107,7 +109,7 @@ impl State {
             let mut m = std::collections::BTreeMap::new();
             for (k, b) in j.facts.iter() {
                 if let Some(a) = self.facts.get(k) {
-                    m.insert(k.clone(), (if b.0 < a.0 { i128::MIN } else { b.0 }, if b.1 > a.1 { i128::MAX } else { b.1 }));
+                    m.insert(k.clone(), (if b.0 < a.0 { i128::MIN } else { b.0 }, if b.1 > a.1 { i128::MAX } else { b.1 }, b.2));
                 }
             }
             j.facts = Rc::new(m);
